@@ -22,6 +22,7 @@ REQUIRED_COUNTERS = {"origin_checked": {"quick": 5000, "thorough": 50000},
                      "recursive_running_targets": {"quick": 50, "thorough": 500},
                      "outermost_error_cases": {"quick": 40, "thorough": 400},
                      "outermost_multi_error_cases": {"quick": 4, "thorough": 40},
+                     "outermost_exiting_cases": {"quick": 8, "thorough": 80},
                      "outermost_option_combinations": {"quick": 200, "thorough": 2000}}
 SHARD_TIMEOUT = {"quick": 400, "thorough": 5400}
 INTERPS = ["3.12", "3.11", "3.10", "3.9"]
@@ -442,6 +443,57 @@ def worker(spec):
         h.close()
         for t in tasks:
             t.gen.close()
+
+    # outermost frame in the middle of leaving a with block: the exiting manager (read off the *next*
+    # frame) and everything fill_context derives from it must be the same through both entry points
+    import contextlib
+    import types as _types
+
+    @_types.coroutine
+    def _park():
+        yield "parked"
+
+    class ExitingACM(object):
+        async def __aenter__(self):
+            return self
+
+        async def __aexit__(self, *e):
+            await _park()
+
+    @contextlib.asynccontextmanager
+    async def exiting_gcm():
+        try:
+            yield
+        finally:
+            await _park()
+
+    async def leaves_class_based():
+        async with ExitingACM():
+            pass
+
+    async def leaves_generator_based():
+        async with exiting_gcm():
+            pass
+
+    for rep in range(spec["reps"]):
+        for label, fn in (("class-based", leaves_class_based), ("generator-based", leaves_generator_based)):
+            co = fn()
+            co.send(None)
+            res.evaluations += 1
+            res.count("outermost_exiting_cases")
+            res.nontrivial(interp, "outermost-exiting", label)
+            s = stackscope.extract(co)
+            fo = stackscope.extract_outermost(co)
+            f0 = s.frames[0]
+            if not (f0.contexts and f0.contexts[-1].is_exiting and f0.contexts[-1].obj is not None):
+                res.violation(kind="harness: outermost frame is not exiting a manager", label=label, interp=interp)
+            elif fo.pyframe is not f0.pyframe or not deep_eq(list(fo.contexts), list(f0.contexts)) \
+                    or [c.description for c in fo.contexts] != [c.description for c in f0.contexts] \
+                    or (fo.hide, fo.hide_line) != (f0.hide, f0.hide_line):
+                res.violation(kind="extract_outermost(x) differs from extract(x).frames[0] while a manager is exiting",
+                              label=label, outermost=[(type(c.obj).__name__, c.is_exiting) for c in fo.contexts],
+                              extract=[(type(c.obj).__name__, c.is_exiting) for c in f0.contexts], interp=interp)
+            co.close()
 
     # greenlets (3.12 only) --------------------------------------------------------------------------
     try:
